@@ -477,10 +477,9 @@ def generate(ctx):
             if len(seen) % 7 == 0:
                 yield "sentence", {"sys": system, "spec": spec}, k
             pools[system].append(spec)
-    bare = {"n": 1, "w": "Hund", "l": "NN", "e": "--", "m": "--", "lem": "--", "sid": 1}
-    for system in ("topdown", "inorder", "gap"):
-        yield "replay_" + system, bare, None
-        yield "sentence", {"sys": system, "spec": bare}, None
+    # A tree that is a bare token (no root constituent) is outside the domain: the property
+    # quantifies over well-formed trees, whose root is a constituent (DESIGN Appendix A); a
+    # one-token sentence is VROOT -> token and is covered by the enumeration above.
     rng = ctx.rng
     per = b["trees_per_file"]
     small = dict((k, [s for s in v if len(tg.spec_leaves(s)) <= 2]) for k, v in pools.items())
